@@ -13,6 +13,40 @@ CLAIMED = {
     ),
 }
 
+_TRACE_NOTE = ("Trusted: TLC/SANY, the transcription of RFC 9535 (and RFC 9485) in /verif/spec, anchored by the RFC example "
+               "tables (./check selftest); the Python<->spec codecs and the input generators (which only propose inputs: the "
+               "expected outcome is always computed by TLC). Coverage is small-scope enumeration plus seeded sampling, not proof.")
+
+
+def _trace(technique, text, ref):
+    return dict(technique=technique, text=text, note=_TRACE_NOTE, design_ref=ref)
+
+
+CLAIMED.update({
+    "C01": _trace("TLA+ semantics of segments/selectors (Eval.tla) evaluated by TLC on recorded find() calls (trace validation)",
+                  "Every recorded find() of a filter-free query is re-computed by TLC from the query TEXT (Syntax.tla parser) and the document (Eval.tla) and must be equal node by node (location, order, duplicates), value-at-location and normalized path included. Inputs: all trees of height<=2/width<=2 x a fixed battery, plus seeded random queries/documents (nasty names, all spellings).", "4 (C01)"),
+    "C02": _trace("TLA+ filter semantics (Eval!Test) evaluated by TLC on recorded find() calls (trace validation)",
+                  "Filter queries built from ~55 atoms (existence tests on '@'/'$' queries, comparisons, calls, nested filters to depth 3) under ! && || and parentheses, on arrays/objects with 18 child kinds (0,false,'',null,[],{},...) and on scalars, plus seeded random filter queries; every result validated by TLC.", "4 (C02)"),
+    "C03": _trace("TLA+ recursive-descent transcription of the RFC 9535 ABNF + typing (Syntax/Typing.tla); compile() outcomes trace-validated by TLC",
+                  "TLC parses every candidate text itself and decides Valid; a valid text that compile() rejects is a violation. Candidates: seeds, repository test queries, seeded generator output with every optional lexical form (blank space at every S, both quotes, every escape form, shorthand/bracket, number spellings, non-BMP names).", "4 (C03)"),
+    "C04": _trace("TLA+ parser (Syntax.tla) as the membership oracle; compile() outcomes on enumerated short strings, lexeme sequences and single-edit neighbours trace-validated by TLC",
+                  "All strings '$'+w over a 27-symbol alphabet (|w|<=3 quick / 4 thorough), seeded lexeme sequences, single-edit neighbours of valid queries; a text outside the grammar that compile() accepts is a violation.", "4 (C04)"),
+    "C05": _trace("TLA+ well-typedness and integer-range judgement (Typing.tla); compile() on fresh environments with probe functions of every signature, trace-validated by TLC",
+                  "All 39 signatures over {V,L,N}^n->type (n<=2) x argument shapes x syntactic positions, unknown names, wrong arity, integers at lo-1..hi+1 for five configured ranges; compile() must agree with Typing.tla and no function body may run during compile().", "4 (C05)"),
+    "C06": _trace("TLA+ comparison table (JsonVal!Cmp) model-checked for its algebraic shape (T5) and used by TLC to validate recorded comparisons",
+                  "Ordered pairs over 50 comparands of every kind (incl. bool-vs-number leaves at depth, permuted members, non-BMP strings, nothing) x 6 operators x every producer of each side; T5 (equivalence, strict order, derived operators) checked exhaustively on the spec's universe.", "4 (C06)"),
+    "C10": _trace("TLA+ function-call semantics (Eval!ArgFor/Builtin); probe functions log received arguments; records trace-validated by TLC",
+                  "Built-ins over 20 child kinds; probes of all 39 signatures log what they receive per declared parameter type; TLC compares logged argument lists (as sets) with Eval!ArgFor and the selection with the declared result type's use.", "4 (C10)"),
+    "C11": _trace("TLA+ I-Regexp grammar and set-of-end-positions matcher (IRegexp.tla), T13 model-checked; match()/search() records trace-validated by TLC",
+                  "Patterns from the RFC 9485 constructs (classes with dialect-special characters, category escapes on the model alphabet, quantifier forms), invalid patterns, non-string arguments x subjects over the special alphabet; both functions, pattern as literal and as query.", "4 (C11)"),
+    "C12": _trace("TLA+ parser + normal form (Canon.tla); str() round-trip records trace-validated by TLC",
+                  "For each compiled query: str() text must be Valid, have the same normal form as the original (or select the same nodes on a witness pool), be a fixpoint of str(compile(.)), with canonical string literals.", "4 (C12)"),
+    "C13": _trace("outcome-class validation of compile()/find() records by TLC (totality clause), inputs from the syntax corpora plus long/deep inputs",
+                  "Valid, almost valid and garbage texts incl. random Unicode and 1,024-character / nesting-32 inputs; every compiled query evaluated on every JSON kind; outcome must be return or a JSONPathError, error string producible, within a wall-clock guard.", "4 (C13)"),
+    "C19": _trace("TLA+ Position/Offset (ErrorPos.tla, T14 model-checked); recorded (text, offset, printed line/column) trace-validated by TLC",
+                  "Every rejection over multi-line corpora (LF/CR/CRLF injected at blank-space positions): offset within the text and printed line/column equal to Position(text, offset).", "4 (C19)"),
+})
+
 NOT_YET = {}
 
 
